@@ -45,12 +45,13 @@ def harness_cmds(cfile, h, outdir, reach=False, extra_defs=()):
     cc = ['goto-cc', '--function', name] + defs + [cfile, '-o', a]
     enforce = h.get('enforce', 'none')
     gi = None
-    if enforce != 'none' or h.get('replace') or h.get('loopcontracts', '1') != '0':
+    lc = h.get('loopcontracts', h.get('loops', '1'))      # 'loops=0' is an alias of 'loopcontracts=0': plain cbmc, no DFCC instrumentation
+    if enforce != 'none' or h.get('replace') or lc != '0':
         gi = ['goto-instrument', '--dfcc', name]
         if enforce != 'none': gi += ['--enforce-contract', enforce]
         for r in [x for x in h.get('replace', '').split(',') if x]:
             gi += ['--replace-call-with-contract', r]
-        if h.get('loopcontracts', '1') != '0': gi += ['--apply-loop-contracts']
+        if lc != '0': gi += ['--apply-loop-contracts']
         gi += [a, b]
     else:
         b = a
